@@ -74,6 +74,10 @@ Definition cinterp (left right : ext) (ns : list cnode) (x : Q) : option pv :=
       else inner
   end.
 
+(* what a correction calculator passes as left / right (regenerated from the source, Gen/Generated.v): the argument is
+   either INVALID_GAIN (true) or absent (false: np.interp holds the end value) *)
+Definition ext_of_edge (invalid : bool) : ext := if invalid then Inval else Hold.
+
 (* np.reciprocal on complex: 1/(m e^{i p}) = (1/m) e^{-i p}; reciprocal(0) and reciprocal(NaN) are NaN *)
 Definition recip (v : option pv) : option pv :=
   match v with
@@ -103,7 +107,8 @@ Definition valid_nodes (xs : list Q) (vs : list (option pv)) : list cnode := fma
 Definition bandpass_corr_seg (cal_freqs data_freqs : list Q) (bp : list (option pv)) : list (option pv) :=
   match valid_nodes cal_freqs bp with
   | [] => map (fun _ => None) data_freqs
-  | ns => map (fun f => recip (cinterp Inval Inval ns f)) data_freqs
+  | ns => map (fun f => recip (cinterp (ext_of_edge bandpass_left_invalid) (ext_of_edge bandpass_right_invalid) ns f))
+              data_freqs
   end.
 Definition bandpass_corr (cal_freqs data_freqs : list Q) (segs : list (list (option pv))) :=
   map (bandpass_corr_seg cal_freqs data_freqs) segs.
@@ -117,10 +122,12 @@ Definition real_sol (s : sol) : option rsol := match snd s with Some g => Some (
 Definition real_sols (s : list sol) : list rsol := fmap real_sol s.
 Definition qn (n : nat) : Q := inject_Z (Z.of_nat n).
 Definition target_at (targets : list Z) (d : nat) : Z := nth d targets 0%Z.
-(* events[valid], gains_per_chan[valid] with valid = isfinite(gains_per_chan) & on_target[events] *)
+(* events[valid], gains_per_chan[valid] with valid = isfinite(gains_per_chan) & on_target[events]
+   (gain_valid_needs_on_target: regenerated from the source) *)
 Definition gain_node (targets : list Z) (tg : Z) (c : nat) (s : rsol) : option cnode :=
   match nth c (snd s) None with
-  | Some v => if Z.eqb (target_at targets (fst s)) tg then Some (qn (fst s), v) else None
+  | Some v => if negb gain_valid_needs_on_target || Z.eqb (target_at targets (fst s)) tg
+              then Some (qn (fst s), v) else None
   | None => None
   end.
 Definition gain_nodes (rs : list rsol) (targets : list Z) (tg : Z) (c : nat) : list cnode :=
@@ -129,7 +136,7 @@ Definition gain_nodes (rs : list rsol) (targets : list Z) (tg : Z) (c : nat) : l
 Definition gain_value (rs : list rsol) (targets : list Z) (d c : nat) : option pv :=
   match gain_nodes rs targets (target_at targets d) c with
   | [] => None
-  | ns => recip (cinterp Hold Hold ns (qn d))
+  | ns => recip (cinterp (ext_of_edge gain_left_invalid) (ext_of_edge gain_right_invalid) ns (qn d))
   end.
 Definition n_chans (rs : list rsol) : nat := match rs with [] => 1%nat | s :: _ => List.length (snd s) end.
 Definition gain_corr (N : nat) (sols : list sol) (targets : option (list Z)) : list (list (option pv)) :=
@@ -249,7 +256,7 @@ Fixpoint expand (streams : list string) (reqs : list string) : option (list stri
               end
   end.
 Definition is_group (r : request) : bool :=
-  match r with RStr s => String.eqb s "all" || String.eqb s "default" | RList _ => false end.
+  match r with RStr s => mem_string s skip_group_names | RList _ => false end.
 (* None = ValueError *)
 Definition normalise (r : request) (streams : list string) : option (list string * bool) :=
   let req := selection_to_list r streams in
